@@ -1,0 +1,7 @@
+//! Verification facade (compiled only with `--cfg rzmq_verif`).
+//!
+//! Thin public wrappers around crate-private items so that an external harness can drive the
+//! real code. Nothing here changes behaviour; without the cfg flag this module does not exist.
+
+pub mod codec;
+pub mod engine;
